@@ -26,6 +26,8 @@ def cases(tier):
                 add(cfg, ops)
         # two step histories (page 8, region [0x4000,0x4040) and page 16)
         add(1, '25', d=9); add(1, '26', d2=20); add(1, '23'); add(0, '25', d=20)
+        # three steps: a Read / Get CRC command, a second (possibly rejected) one, then the pending data indication is served
+        add(1, '338'); add(0, '338')
     else:
         for cfg in (0, 1, 2, 3):
             for x in range(0, 21):
@@ -52,7 +54,7 @@ PROPERTY = Property(
              unwindset=['vf_bl_write_data.%d:5' % i for i in range(4)],
              description='real bootloader controller under symbolic histories of control point writes, data writes, progress / response / '
                          'data-indication deliveries; the flash handler is the recording environment that asserts every touched range',
-             bounds='histories of up to 2 operations from construction; the shape of every step is a case parameter: control point write of '
+             bounds='histories of up to 2 operations from construction (plus the 3-step shape control point write, control point write, data indication delivery); the shape of every step is a case parameter: control point write of '
                     '1, 9, 17 or XLEN (0..20) bytes (symbolic opcode and parameters, exact-size objects), data write of DLEN or DLEN2 bytes (<= 20, all bytes symbolic), progress, '
                     'data indication delivery, control point notification delivery; quick: single writes (lengths 0,1,2,8,9,10,16,17,18,20) for CFG0 and lengths 1,9,17 for all configurations, four 2-step histories; '
                     'thorough: single writes of every length 0..20 for the 4 configurations, 2-step histories (control point write followed by control point or data write) for the 4 configurations')],
